@@ -181,6 +181,10 @@ def run(ctx):
             if any(drv.ask(f"onb {impl.shape_tokens_of_vertices(vs)} {core.ept(p)}") == "T" for vs in vss):
                 ctx.count("sample-on-boundary-skipped")
                 continue
+            if gen.dist_to_curves(p, R) < 2e-5:
+                # (a cell centre of a drawing at a tiny unit can lie within the library's ABSOLUTE 1e-6 on-curve tolerance of the boundary - K8 territory)
+                ctx.count("sample-near-boundary-skipped")
+                continue
             exp = drv.ask(f"memw {core.eshape(R)} {core.ept(p)}") == "T"
             got = p in R
             ctx.check(got == exp, "p in result disagrees with the model on the same result", {**desc, "point": p}, exp, got)
